@@ -217,7 +217,7 @@ prop(
 
 prop(
     "C16",
-    rules=["C16-R1", "C16-R3", "C16-R4", "C16-R5", "C05-R1", "C16-R2"],
+    rules=["C16-R1", "C16-R3", "C16-R4", "C16-R5", "C16-R2"],
     static_rules=[T.rule_template_shapes],
     static_floors={'C16-R2': 10, 'C16-R4': 9},
     mir_rules=[M.rule_collectors, M.rule_cfg_lookup, M.rule_dataworld, M.rule_bind_query_params],
